@@ -138,6 +138,8 @@ def taint_function(fi: FuncInfo):
 
 def check(ctx):
     repo = ctx.repo
+    ctx.rule("R09.8", "no function writes module-level or class-level state (nothing survives from one run to the next inside a process)", 1)
+    ctx.rule("R09.7", "mutable default arguments are never modified (a default object is shared by all calls in the process)", 1)
     ctx.rule("R09.6", "no function writes into an array it was handed (output-parameter table excepted): a run leaves its inputs as it found them", 1)
     ctx.rule("R09.1", "every nondeterminism source (random, clock, hash, process identity) flows only into log text, the exempt "
                       "timestamp fields, a cache key, or a raise/continue decision", 8)
@@ -181,6 +183,12 @@ def check(ctx):
     ok = all(any("monitor" in t for t in g) for _, _, g in stores)
     ctx.ob("R09.5", "os.environ writes", ok, detail=stores, where="repo", construct="os.environ stores",
            message=f"environment written unconditionally: {stores}", consequence="a run changes the behaviour of later runs in the same process")
+    from ..effects import mutable_defaults
+    mutable_defaults(ctx, "R09.7", "the result of a call depends on how often the function was called before in the same process: "
+                                   "a repeated run is not bit-identical to the first")
+    from ..effects import no_global_state
+    no_global_state(ctx, "R09.8", "a second run in the same process sees what the first run left behind (a cache, a counter): "
+                                  "its results differ from the same run in a fresh process")
     from ..effects import input_purity
     input_purity(ctx, "R09.6", 'solving overwrites an array owned by the caller (e.g. the induced vector potential of the seed Solution): the same call repeated in the same process starts from different data, so repeated runs are no longer bit-identical')
     ctx.assume("Triangle, SuperLU, qhull, BLAS threading and numba's fastmath code generation are deterministic on one machine (external)")
